@@ -56,6 +56,8 @@ class FnTranslator:
                 raise TranslateError('constant %r' % (n.value,))
             return ('num', Fraction(str(n.value)))
         if isinstance(n, ast.Name):
+            if n.id == '__inda__':
+                return ('inda',)
             if n.id in self.config and isinstance(self.config[n.id], (int, float)) and not isinstance(self.config[n.id], bool):
                 return ('num', Fraction(str(self.config[n.id])))
             if n.id not in self.defined:
@@ -318,8 +320,8 @@ def evalf(e, env, zq):
         x = evalf(e[2], env, zq)
         try:
             return {'sqrt': math.sqrt, 'ln': math.log, 'exp': math.exp, 'zq': zq,
-                    'expit': lambda t: 1.0 / (1.0 + math.exp(-t))}[e[1]](x)
-        except ValueError:
+                    'expit': lambda t: (1.0 / (1.0 + math.exp(-t))) if t >= 0 else (math.exp(t) / (1.0 + math.exp(t)))}[e[1]](x)
+        except (ValueError, OverflowError):
             return float('nan')
     if k == 'inda':
         return 1.0 if env['__a'] else 0.0
